@@ -9,6 +9,7 @@ import (
 	"sort"
 	"strings"
 	"sync"
+	"time"
 
 	"verif.local/verif/simlib/plan"
 	"verif.local/verifsim"
@@ -113,7 +114,7 @@ func specOf(p *plan.SchedPlan, task []plan.SOp, op plan.SOp) (ObjSpec, bool) {
 // data are fingerprinted around the whole run instead).
 func (e *runEnv) doOp(t int, op plan.SOp, locals *[]*Object, checkDatum bool) opRec {
 	rec := opRec{Ran: true}
-	ctx := &verifsim.OpCtx{Obj: -1, Tape: op.Tape, HookFailAt: op.FailAt, RecStores: true, Limit: 1 << 20}
+	ctx := &verifsim.OpCtx{Obj: -1, Tape: op.Tape, HookFailAt: op.FailAt, RecStores: true, Limit: 1 << 20, ClockJumps: op.Jumps, RandSeed: uint64(t*1000 + 7)}
 	var obj *Object
 	if op.Kind == "eval" || op.Kind == "exec" || op.Kind == "expr" {
 		if op.Local {
@@ -186,7 +187,7 @@ func (e *runEnv) doOp(t int, op plan.SOp, locals *[]*Object, checkDatum bool) op
 // left it, with the same order tape and hook countdown.
 func (e *runEnv) freshOp(task []plan.SOp, op plan.SOp) opRec {
 	rec := opRec{Ran: true}
-	ctx := &verifsim.OpCtx{Obj: -1, Tape: op.Tape, HookFailAt: op.FailAt}
+	ctx := &verifsim.OpCtx{Obj: -1, Tape: op.Tape, HookFailAt: op.FailAt, ClockJumps: op.Jumps}
 	switch op.Kind {
 	case "eval", "exec", "expr":
 		spec, ok := specOf(e.p, task, op)
@@ -782,6 +783,10 @@ func GenSchedPlan(seed uint64, idx int, prop string) *plan.SchedPlan {
 				if spec.Opts.Hook != "" && r.Chance(0.35) {
 					op.FailAt = r.Range(1, 8)
 				}
+				if r.Chance(0.04) {
+					// the clock jumps while the call is running
+					op.Jumps = []verifsim.ClockJump{{At: r.Range(1, 120), Delta: []time.Duration{30 * time.Millisecond, 2 * time.Second, time.Hour, -time.Second}[r.Intn(4)]}}
+				}
 			}
 			ops = append(ops, op)
 		}
@@ -838,6 +843,9 @@ func genHammer(p *plan.SchedPlan, r *plan.Rand, uniq string, k int) *plan.SchedP
 			}
 			if obj.Opts.Hook != "" && r.Chance(0.2) {
 				op.FailAt = r.Range(1, 8)
+			}
+			if r.Chance(0.06) {
+				op.Jumps = []verifsim.ClockJump{{At: r.Range(1, 200), Delta: []time.Duration{2 * time.Second, time.Hour}[r.Intn(2)]}}
 			}
 			ops = append(ops, op)
 		}
